@@ -979,8 +979,12 @@ template<typename T, typename C, typename A>
 template<typename FwdV>
 void quantiles_sketch<T, C, A>::zip_buffer_with_stride(FwdV&& buf_in, Level& buf_out, uint16_t stride) {
   // Random offset in range [0, stride)
+#ifdef DATASKETCHES_VERIF
+  const uint16_t rand_offset = static_cast<uint16_t>(random_utils::verif_next_below(stride));
+#else
   std::uniform_int_distribution<uint16_t> dist(0, stride - 1);
   const uint16_t rand_offset = dist(random_utils::rand);
+#endif
   
   if ((buf_in.size() != stride * buf_out.capacity())
     || (buf_out.size() > 0)) {
